@@ -123,6 +123,11 @@ class MaskMonitor:
             self.cov.inc("allowed_but_refused_at_execution")
             self.v(f"mask-allows-but-refused-at-execution/{refusers[0]}/{aname}", f"{aname} {opts}: mask 1 on the pre-step state, but while executing {req} the permission "
                    f"rule(s) {refusers} answered False (response {status}: {item.response.data})")
+        try:
+            env.action_masks()  # a second query after the step (policies / wrappers ask at various moments); must not disturb later answers
+            self.cov.inc("post_step_mask_queries")
+        except Exception as e:
+            self.v(f"action-masks-raises-after-step/{type(e).__name__}", f"env.action_masks() after a step raised {type(e).__name__}: {e}")
         if m and self.alone and dr["why"] == "handler" and status == "unreachable":
             self.v(f"allowed-action-unreachable/{aname}", f"{aname} {opts}: mask 1, dry-run reaches handler, response unreachable {item.response.data}")
 
@@ -135,6 +140,28 @@ class MaskMonitor:
         names = list(env.game.agents)
         self.alone = bool(names) and names[0] == env._agent_name
         self.trail.append(("reset", ep))
+        # the mask offered for the first step of the new episode (asked for right after reset, as a policy wrapper does) must describe
+        # the NEW episode's initial state
+        try:
+            mask = np.asarray(env.action_masks()).astype(bool)
+        except Exception as e:
+            self.v(f"action-masks-raises-after-reset/{type(e).__name__}", f"env.action_masks() after reset raised {type(e).__name__}: {e}")
+            return
+        am = env.agent.action_manager
+        root = env.game.simulation._request_manager
+        self.cov.inc("masks_compared_right_after_reset")
+        for i, (aname, opts) in am.action_map.items():
+            try:
+                req = am.form_request(aname, opts)
+            except Exception:
+                continue
+            dr = dry_run(root, req)
+            self.cov.inc("mask_entry_compares")
+            if bool(mask[i]) != (not dr["refused"]):
+                self.v(f"mask-after-reset-disagrees/{'allows-but-refused' if dr['refused'] else 'forbids-but-not-refused'}",
+                       f"episode {ep}: right after reset mask[{i}]={int(mask[i])} for {aname} {opts} but the independent walk of {req} says refused={dr['refused']} "
+                       f"({dr['why']} at depth {dr['depth']}): the mask does not describe the new episode's initial state")
+                break
 
 
 class RefusalTracer:
@@ -144,6 +171,7 @@ class RefusalTracer:
     def __init__(self, cov):
         self.cov = cov
         self.stack = []
+        self.raw = []
         self.refused = {}  # repr(request) -> [validator class names]
 
     def install(self):
@@ -159,6 +187,13 @@ class RefusalTracer:
 
         def post_val(v, tok, res, exc, *a, **k):
             if tr.stack and res is False and type(v).__name__ != "_CombinedValidator":
+                # only rules on the path of the request itself: a rule refusing a NESTED request (a terminal command carried as an argument and
+                # executed by the handler) is the handler's business - 'allowed' never meant 'will succeed'
+                outer = tr.raw[0]
+                rest = list(a[0]) if a and isinstance(a[0], (list, tuple)) else None
+                if rest is not None and not (len(rest) <= len(outer) and (not rest or outer[-len(rest):] == rest)):
+                    tr.cov.inc("validator_refusals_in_nested_requests_ignored")
+                    return
                 tr.refused.setdefault(tr.stack[0], []).append(type(v).__name__)
                 tr.cov.inc("validator_refusals_seen_during_execution")
 
@@ -168,9 +203,11 @@ class RefusalTracer:
 
         def pre_apply(sim, request, *a, **k):
             tr.stack.append(repr(list(request)))
+            tr.raw.append(list(request))
 
         def post_apply(sim, tok, res, exc, request, *a, **k):
             tr.stack.pop()
+            tr.raw.pop()
 
         probes.wrap(Simulation, "apply_request", pre=pre_apply, post=post_apply)
 
